@@ -109,9 +109,19 @@ def coq_build(targets, timeout):
     return rc == 0, out
 
 
+def prop_modules(prop):
+    """props/Cnn.v plus any props/Cnn_*.v (further statement files of the same property)"""
+    import glob
+    extra = sorted(os.path.basename(f)[:-2] for f in glob.glob(os.path.join(COQ, "props", prop + "_*.v")))
+    return [prop] + extra
+
+
 def theorems_of(prop):
-    text = strip_coq_comments(open(os.path.join(COQ, "props", prop + ".v"), encoding="utf-8").read())
-    return re.findall(r"^\s*Theorem\s+(\w+)", text, re.M)
+    names = []
+    for m in prop_modules(prop):
+        text = strip_coq_comments(open(os.path.join(COQ, "props", m + ".v"), encoding="utf-8").read())
+        names += re.findall(r"^\s*Theorem\s+(\w+)", text, re.M)
+    return names
 
 
 def print_assumptions(prop, names):
@@ -120,7 +130,7 @@ def print_assumptions(prop, names):
     os.makedirs(d, exist_ok=True)
     f = os.path.join(d, "PA_%s.v" % prop)
     with open(f, "w") as fh:
-        fh.write("From MsiProps Require Import %s.\n" % prop)
+        fh.write("From MsiProps Require Import %s.\n" % " ".join(prop_modules(prop)))
         for n in names:
             fh.write('Goal True. idtac "@@%s". Abort.\nPrint Assumptions %s.\n' % (n, n))
     rc, out = run(["coqc", "-noglob", "-Q", "theories", "MsiModel", "-Q", "gen", "MsiGen", "-Q", "props", "MsiProps",
@@ -365,7 +375,7 @@ def main():
     if not ok_model:
         broken.append(("model-build", out[-1500:]))
         log(out[-3000:])
-    ok_thm, out = coq_build(["props/%s.vo" % prop], 3000)
+    ok_thm, out = coq_build(["props/%s.vo" % m for m in prop_modules(prop)], 3000)
     if not ok_thm:
         m = re.search(r'File "([^"]+)", line (\d+)', out)
         where = "%s:%s" % (m.group(1), m.group(2)) if m else "?"
@@ -385,7 +395,7 @@ def main():
                     broken.append(("assumptions", "%s depends on %s" % (n, pa_detail[n])))
     if tier == "thorough" and ok_thm:
         rc, out = run(["coqchk", "-silent", "-o", "-Q", "theories", "MsiModel", "-Q", "gen", "MsiGen", "-Q", "props", "MsiProps",
-                       "MsiProps.%s" % prop], 1800, cwd=COQ)
+                       ] + ["MsiProps.%s" % m for m in prop_modules(prop)], 1800, cwd=COQ)
         notes.append("coqchk rc=%d: %s" % (rc, " ".join(out.split())[-300:]))
         if rc != 0:
             broken.append(("coqchk", out[-800:]))
